@@ -30,6 +30,10 @@ theorem src_datetime_mod_rs_fn_from_timestamp_millis : C02_src_datetime_mod_rs_f
 theorem src_datetime_mod_rs_fn_from_timestamp_nanos : C02_src_datetime_mod_rs_fn_from_timestamp_nanos =
     ["v1", "i64", "->", "Self", "v2", "v1", "div_euclid(", "1000000000", "v3", "v1", "rem_euclid(", "1000000000", "as", "u32", "expect(", "Self", "from_timestamp(", "v2", "v3", "\"…\""] := by decide +kernel
 
+/-- src/datetime/mod.rs:fn naive_utc -/
+theorem src_datetime_mod_rs_fn_naive_utc : C02_src_datetime_mod_rs_fn_naive_utc =
+    ["&", "self", "->", "NaiveDateTime", "self", "v1"] := by decide +kernel
+
 /-- src/datetime/mod.rs:fn timestamp -/
 theorem src_datetime_mod_rs_fn_timestamp : C02_src_datetime_mod_rs_fn_timestamp =
     ["&", "self", "->", "i64", "v1", "self", "v2", "date(", "num_days_from_ce(", "as", "i64", "v3", "self", "v2", "time(", "num_seconds_from_midnight(", "as", "i64", "v1", "-", "UNIX_EPOCH_DAY", "*", "86400", "+", "v3"] := by decide +kernel
@@ -41,6 +45,10 @@ theorem src_datetime_mod_rs_fn_timestamp_micros : C02_src_datetime_mod_rs_fn_tim
 /-- src/datetime/mod.rs:fn timestamp_millis -/
 theorem src_datetime_mod_rs_fn_timestamp_millis : C02_src_datetime_mod_rs_fn_timestamp_millis =
     ["&", "self", "->", "i64", "v1", "self", "timestamp(", "*", "1000", "v1", "+", "self", "timestamp_subsec_millis(", "as", "i64"] := by decide +kernel
+
+/-- src/datetime/mod.rs:fn timestamp_nanos -/
+theorem src_datetime_mod_rs_fn_timestamp_nanos : C02_src_datetime_mod_rs_fn_timestamp_nanos =
+    ["&", "self", "->", "i64", "expect(", "self", "timestamp_nanos_opt(", "\"…\""] := by decide +kernel
 
 /-- src/datetime/mod.rs:fn timestamp_nanos_opt -/
 theorem src_datetime_mod_rs_fn_timestamp_nanos_opt : C02_src_datetime_mod_rs_fn_timestamp_nanos_opt =
@@ -66,9 +74,69 @@ theorem src_datetime_mod_rs_impl_From_for_DateTime : C02_src_datetime_mod_rs_imp
 theorem src_datetime_mod_rs_impl_From_for_SystemTime : C02_src_datetime_mod_rs_impl_From_for_SystemTime =
     ["From", "<", "SystemTime", ">", "for", "DateTime", "<", "Utc", ">", "from(", "v1", "SystemTime", "->", "DateTime", "<", "Utc", ">", "let(", "v2", "v3", "match", "v1", "duration_since(", "UNIX_EPOCH", "Ok(", "v4", "=>", "v4", "as_secs(", "as", "i64", "v4", "subsec_nanos(", "Err(", "v5", "=>", "v4", "v5", "duration(", "let(", "v2", "v3", "v4", "as_secs(", "as", "i64", "v4", "subsec_nanos(", "if", "v3", "==", "0", "-", "v2", "0", "else", "-", "v2", "-", "1", "1000000000", "-", "v3", "Utc", "timestamp_opt(", "v2", "v3", "unwrap(", "§", "From", "<", "SystemTime", ">", "for", "DateTime", "<", "Local", ">", "from(", "v1", "SystemTime", "->", "DateTime", "<", "Local", ">", "DateTime", "<", "Utc", ">", "from(", "v1", "with_timezone(", "&", "Local", "§", "<", "Tz", "TimeZone", ">", "From", "<", "DateTime", "<", "Tz", ">>", "for", "SystemTime", "from(", "v1", "DateTime", "<", "Tz", ">", "->", "SystemTime", "v2", "v1", "timestamp(", "v3", "v1", "timestamp_subsec_nanos(", "if", "v2", "<", "0", "UNIX_EPOCH", "-", "Duration", "new(", "-", "v2", "as", "u64", "0", "+", "Duration", "new(", "0", "v3", "else", "UNIX_EPOCH", "+", "Duration", "new(", "v2", "as", "u64", "v3"] := by decide +kernel
 
+/-- src/naive/datetime/mod.rs:fn from_timestamp -/
+theorem src_naive_datetime_mod_rs_fn_from_timestamp : C02_src_naive_datetime_mod_rs_fn_from_timestamp =
+    ["v1", "i64", "v2", "u32", "->", "NaiveDateTime", "v3", "expect(", "DateTime", "from_timestamp(", "v1", "v2", "\"…\"", "v3", "naive_utc("] := by decide +kernel
+
+/-- src/naive/datetime/mod.rs:fn from_timestamp_micros -/
+theorem src_naive_datetime_mod_rs_fn_from_timestamp_micros : C02_src_naive_datetime_mod_rs_fn_from_timestamp_micros =
+    ["v1", "i64", "->", "Option", "<", "NaiveDateTime", ">", "v2", "v1", "div_euclid(", "1000000", "v3", "v1", "rem_euclid(", "1000000", "as", "u32", "*", "1000", "Some(", "try_opt!(", "DateTime", "<", "Utc", ">", "from_timestamp(", "v2", "v3", "naive_utc("] := by decide +kernel
+
+/-- src/naive/datetime/mod.rs:fn from_timestamp_millis -/
+theorem src_naive_datetime_mod_rs_fn_from_timestamp_millis : C02_src_naive_datetime_mod_rs_fn_from_timestamp_millis =
+    ["v1", "i64", "->", "Option", "<", "NaiveDateTime", ">", "Some(", "try_opt!(", "DateTime", "from_timestamp_millis(", "v1", "naive_utc("] := by decide +kernel
+
+/-- src/naive/datetime/mod.rs:fn from_timestamp_nanos -/
+theorem src_naive_datetime_mod_rs_fn_from_timestamp_nanos : C02_src_naive_datetime_mod_rs_fn_from_timestamp_nanos =
+    ["v1", "i64", "->", "Option", "<", "NaiveDateTime", ">", "v2", "v1", "div_euclid(", "NANOS_PER_SEC", "as", "i64", "v3", "v1", "rem_euclid(", "NANOS_PER_SEC", "as", "i64", "as", "u32", "Some(", "try_opt!(", "DateTime", "from_timestamp(", "v2", "v3", "naive_utc("] := by decide +kernel
+
+/-- src/naive/datetime/mod.rs:fn from_timestamp_opt -/
+theorem src_naive_datetime_mod_rs_fn_from_timestamp_opt : C02_src_naive_datetime_mod_rs_fn_from_timestamp_opt =
+    ["v1", "i64", "v2", "u32", "->", "Option", "<", "NaiveDateTime", ">", "Some(", "try_opt!(", "DateTime", "from_timestamp(", "v1", "v2", "naive_utc("] := by decide +kernel
+
+/-- src/naive/datetime/mod.rs:fn timestamp -/
+theorem src_naive_datetime_mod_rs_fn_timestamp : C02_src_naive_datetime_mod_rs_fn_timestamp =
+    ["&", "self", "->", "i64", "self", "and_utc(", "timestamp("] := by decide +kernel
+
+/-- src/naive/datetime/mod.rs:fn timestamp_micros -/
+theorem src_naive_datetime_mod_rs_fn_timestamp_micros : C02_src_naive_datetime_mod_rs_fn_timestamp_micros =
+    ["&", "self", "->", "i64", "self", "and_utc(", "timestamp_micros("] := by decide +kernel
+
+/-- src/naive/datetime/mod.rs:fn timestamp_millis -/
+theorem src_naive_datetime_mod_rs_fn_timestamp_millis : C02_src_naive_datetime_mod_rs_fn_timestamp_millis =
+    ["&", "self", "->", "i64", "self", "and_utc(", "timestamp_millis("] := by decide +kernel
+
+/-- src/naive/datetime/mod.rs:fn timestamp_nanos -/
+theorem src_naive_datetime_mod_rs_fn_timestamp_nanos : C02_src_naive_datetime_mod_rs_fn_timestamp_nanos =
+    ["&", "self", "->", "i64", "self", "and_utc(", "timestamp_nanos("] := by decide +kernel
+
+/-- src/naive/datetime/mod.rs:fn timestamp_nanos_opt -/
+theorem src_naive_datetime_mod_rs_fn_timestamp_nanos_opt : C02_src_naive_datetime_mod_rs_fn_timestamp_nanos_opt =
+    ["&", "self", "->", "Option", "<", "i64", ">", "self", "and_utc(", "timestamp_nanos_opt("] := by decide +kernel
+
+/-- src/naive/datetime/mod.rs:fn timestamp_subsec_micros -/
+theorem src_naive_datetime_mod_rs_fn_timestamp_subsec_micros : C02_src_naive_datetime_mod_rs_fn_timestamp_subsec_micros =
+    ["&", "self", "->", "u32", "self", "and_utc(", "timestamp_subsec_micros("] := by decide +kernel
+
+/-- src/naive/datetime/mod.rs:fn timestamp_subsec_millis -/
+theorem src_naive_datetime_mod_rs_fn_timestamp_subsec_millis : C02_src_naive_datetime_mod_rs_fn_timestamp_subsec_millis =
+    ["&", "self", "->", "u32", "self", "and_utc(", "timestamp_subsec_millis("] := by decide +kernel
+
+/-- src/naive/datetime/mod.rs:fn timestamp_subsec_nanos -/
+theorem src_naive_datetime_mod_rs_fn_timestamp_subsec_nanos : C02_src_naive_datetime_mod_rs_fn_timestamp_subsec_nanos =
+    ["&", "self", "->", "u32", "self", "and_utc(", "timestamp_subsec_nanos("] := by decide +kernel
+
+/-- src/offset/mod.rs:fn timestamp -/
+theorem src_offset_mod_rs_fn_timestamp : C02_src_offset_mod_rs_fn_timestamp =
+    ["&", "self", "v1", "i64", "v2", "u32", "->", "DateTime", "<", "Self", ">", "self", "timestamp_opt(", "v1", "v2", "unwrap("] := by decide +kernel
+
 /-- src/offset/mod.rs:fn timestamp_micros -/
 theorem src_offset_mod_rs_fn_timestamp_micros : C02_src_offset_mod_rs_fn_timestamp_micros =
     ["&", "self", "v1", "i64", "->", "MappedLocalTime", "<", "DateTime", "<", "Self", ">>", "match", "DateTime", "from_timestamp_micros(", "v1", "Some(", "v2", "=>", "MappedLocalTime", "Single(", "self", "from_utc_datetime(", "&", "v2", "naive_utc(", "None", "=>", "MappedLocalTime", "None"] := by decide +kernel
+
+/-- src/offset/mod.rs:fn timestamp_millis -/
+theorem src_offset_mod_rs_fn_timestamp_millis : C02_src_offset_mod_rs_fn_timestamp_millis =
+    ["&", "self", "v1", "i64", "->", "DateTime", "<", "Self", ">", "self", "timestamp_millis_opt(", "v1", "unwrap("] := by decide +kernel
 
 /-- src/offset/mod.rs:fn timestamp_millis_opt -/
 theorem src_offset_mod_rs_fn_timestamp_millis_opt : C02_src_offset_mod_rs_fn_timestamp_millis_opt =
@@ -81,6 +149,10 @@ theorem src_offset_mod_rs_fn_timestamp_nanos : C02_src_offset_mod_rs_fn_timestam
 /-- src/offset/mod.rs:fn timestamp_opt -/
 theorem src_offset_mod_rs_fn_timestamp_opt : C02_src_offset_mod_rs_fn_timestamp_opt =
     ["&", "self", "v1", "i64", "v2", "u32", "->", "MappedLocalTime", "<", "DateTime", "<", "Self", ">>", "match", "DateTime", "from_timestamp(", "v1", "v2", "Some(", "v3", "=>", "MappedLocalTime", "Single(", "self", "from_utc_datetime(", "&", "v3", "naive_utc(", "None", "=>", "MappedLocalTime", "None"] := by decide +kernel
+
+/-- src/time_delta.rs:const NANOS_PER_SEC -/
+theorem src_time_delta_rs_const_NANOS_PER_SEC : C02_src_time_delta_rs_const_NANOS_PER_SEC =
+    ["i32", "1000000000"] := by decide +kernel
 
 /-- callee src/datetime/mod.rs:fn from_naive_utc_and_offset -/
 theorem callee_src_datetime_mod_rs_fn_from_naive_utc_and_offset : C02_callee_src_datetime_mod_rs_fn_from_naive_utc_and_offset =
